@@ -34,7 +34,7 @@ def run(ctx):
     q = ctx.quick
     rnd = random.Random(ctx.seed)
     behs = []
-    for cfg, per_class in [("MC_quick.cfg", 2 if q else 12), ("MC_two.cfg", 6 if q else 60)]:
+    for cfg, per_class in [("MC_quick.cfg", 2 if q else 6), ("MC_two.cfg", 6 if q else 30)]:
         mc = ctx.tlc("compaction", "Compaction", cfg, workers=4, timeout=900)
         ctx.account(mc)
         by = {}
@@ -53,7 +53,7 @@ def run(ctx):
         ctx.account(big)
         ctx.log("MC_big: %d generated / %d distinct (%.0fs)" % (big.generated, big.distinct, big.wall))
     d = 40
-    sim = ctx.tlc("compaction", "Compaction", "SIM.cfg", simulate=(2 if q else 40), depth=d + 3, workers=4,
+    sim = ctx.tlc("compaction", "Compaction", "SIM.cfg", simulate=(2 if q else 15), depth=d + 3, workers=4,
                   constants={"MaxOps": d}, timeout=(150 if q else 900))
     ctx.account(sim)
     walks = [r["h"] for r in sim.emitted]
